@@ -150,12 +150,21 @@ Proof. exact exc_spec_b_spec. Qed.
 Print Assumptions C16_excerpts_checker.
 
 (* the greedy checker run on get_excerpts' observed row numbers implies the statement (soundness;
-   completeness = minimality of the greedy run decomposition is not proved) *)
+   completeness = minimality of the greedy run decomposition is C16_getexc_checker below) *)
 Theorem C16_getexc_checker_sound : forall (n size : Z), 0 <= n -> 1 <= size ->
   forall (k : Z) (out : list Z), 0 <= k ->
   getexc_b n k size out = true -> GetExc_Spec (zrange 0 (Z.to_nat n)) k size out.
 Proof. exact getexc_b_sound. Qed.
 Print Assumptions C16_getexc_checker_sound.
+
+(* ... and accepts every output that satisfies the statement (the greedy decomposition into runs of
+   consecutive row numbers of length <= size never needs more runs than any decomposition into
+   excerpts): clause 26 of the comparator decides GetExc_Spec exactly, so it cannot raise a false alarm *)
+Theorem C16_getexc_checker : forall (n size : Z), 0 <= n -> 1 <= size ->
+  forall (k : Z) (out : list Z), 0 <= k ->
+  (getexc_b n k size out = true <-> GetExc_Spec (zrange 0 (Z.to_nat n)) k size out).
+Proof. exact getexc_b_iff. Qed.
+Print Assumptions C16_getexc_checker.
 
 (* chunk_bounds in closed form, the docstring's picture [ ceil(ov/2) | cs - ov | floor(ov/2) ]:
    1 + max(0, (n - cs - 1) div (cs - ov)) full chunks at stride cs - ov, each keeping up to
@@ -257,3 +266,5 @@ Proof. vm_compute. split; reflexivity. Qed.
 Example C16_ex_reader_chunks : option_map iter_base (get_chunk_bounds [3; 1; 5] 2) =
   Some [mkiv 0 2; mkiv 2 3; mkiv 3 4; mkiv 4 6; mkiv 6 8; mkiv 8 9].
 Proof. vm_compute. reflexivity. Qed.
+Example C16_ex_getexc_greedy_merges : getexc_b 8 2 4 [0; 1; 2; 3; 4; 5] = true /\ getexc_b 8 2 2 [0; 1; 2; 3; 4; 5] = false.
+Proof. vm_compute. split; reflexivity. Qed.
